@@ -175,8 +175,10 @@ def check(prog, run):
     nf = rcs.get("NoFragmentCyclesChecker")
     ld = nf.methods.get("leave_document") if nf else None
     shapes.require(ld is not None, "C06.R3: NoFragmentCyclesChecker.leave_document not found")
-    srch = [f for f in ld.nested.values()]
-    rec = any(isinstance(n, ast.Call) and isinstance(n.func, ast.Name) and n.func.id == f.name for f in srch for n in own_nodes(f.node))
+    srch = cycle_search_functions(nf)
+    rec = any(isinstance(n, ast.Call) and ((isinstance(n.func, ast.Name) and n.func.id == f.name) or (
+        isinstance(n.func, ast.Attribute) and n.func.attr == f.name and isinstance(n.func.value, ast.Name) and n.func.value.id == "self"))
+        for f in srch for n in own_nodes(f.node))
     closure_breaks(prog, run, r, [ff] + srch)
     r.instance("NoFragmentCyclesChecker search is recursive: %s" % rec)
     if not rec:
@@ -719,3 +721,21 @@ def check_parent_exclusivity(prog, run, rule_id):
                    "fields with different names under one response key are %s for parent kinds %s" % (
                        "not reported" if "conflict" in bad[0]["expected"] else "reported although no object can have both parents",
                        ["%s/%s/%s" % (b["parent_1"], b["parent_2"], "different" if b["different"] else "same") for b in bad[:4]]), {"rows": bad})
+
+
+def cycle_search_functions(nf):
+    """The functions that walk the spread graph for NoFragmentCyclesChecker.leave_document: its nested closures, and the
+    methods of the class it calls (transitively) through `self.` - wherever a refactoring put the search."""
+    ld = nf.methods.get("leave_document")
+    out = list(ld.nested.values())
+    seen, todo = set(), [ld] + out
+    while todo:
+        g = todo.pop()
+        for n in own_nodes(g.node):
+            if isinstance(n, ast.Call) and isinstance(n.func, ast.Attribute) and isinstance(n.func.value, ast.Name) and n.func.value.id == "self":
+                m = nf.methods.get(n.func.attr)
+                if m is not None and m.name not in seen and not m.name.startswith(("enter_", "leave_", "__")) and m.cls is nf:
+                    seen.add(m.name)
+                    out.append(m)
+                    todo.append(m)
+    return out
